@@ -38,6 +38,11 @@ ProbeDoc ==
   \o Elem(RM \o Str_name \o Q \o A \o Q \o <<32, 99, 61>> \o Q \o <<115, 107, 105, 112>> \o Q)          \* c='skip' : no effect
   \o Elem(RM \o Str_name \o Q \o A \o Q \o <<32, 99, 61>> \o DQ \o <<97, 32, 115, 107, 105, 112, 32, 98>> \o DQ)   \* c="a skip b"
   \o Elem(RM \o Str_name \o DQ \o A \o DQ)                                            \* double quotes
+  \* the other quote character inside a quoted value is an ordinary character
+  \o Elem(RM \o Str_name \o Q \o A \o Q \o <<32, 99, 61>> \o DQ \o <<100, 111, 110>> \o Q \o <<116, 32, 115, 107, 105, 112, 32, 98>> \o DQ)   \* c="don't skip b"
+  \o Elem(RM \o Str_name \o Q \o A \o Q \o <<32, 99, 61>> \o Q \o <<97, 32>> \o DQ \o <<32, 115, 107, 105, 112, 32>> \o DQ \o <<32, 98>> \o Q)   \* c='a " skip " b'
+  \o Elem(RM \o Str_name \o DQ \o A \o Q \o <<115>> \o DQ)                          \* name="<A>'s": not the name A
+  \o Elem(RM \o Str_name \o Q \o A \o DQ \o <<32, 122>> \o Q)                       \* name='<A>" z'
   \o Elem(RM \o <<32, 110, 97, 109, 101>>)                                            \* name without value
   \o Elem(RM)                                                                          \* no name
   \o ElemNamed(<<120, 120>>, <<120, 120>> \o Str_name \o Q \o A \o Q)                 \* unregistered tag name
